@@ -194,6 +194,13 @@ def numpy_fn(I, n, args, kw, st, node):
         return v_round(I, args[0], args[1] if len(args) > 1 else 0, st, node) if len(args) > 1 else v_round(I, args[0], None, st, node)
     if n in ("sort", "unique"):
         return Opaque("np.%s" % n)
+    if n == "searchsorted":
+        a, x = args[0], args[1]
+        side = kw.get("side", args[2] if len(args) > 2 else "left")
+        if I.arr(st, a) is None or side not in ("left", "right"):
+            raise ToolLimit("np.searchsorted form")
+        # insertion point in a sorted array = number of elements < x (left) / <= x (right)
+        return I.count_mask(MaskV(a, "<" if side == "left" else "<=", x), st, node)
     if n == "clip":
         x, lo, hi = args[0], args[1], args[2]
         if I.arr(st, x) is not None:
